@@ -240,7 +240,14 @@ struct RecInner {
     /// which write to that class is held (0 = the first)
     hold_nth: usize,
     hold_seen: usize,
+    /// (file class, microseconds): the next unlink of a file of that class is held back that long inside the hook
+    /// (one-shot), simulating a background clean-up task that is still at work
+    hold_unlink: Option<(&'static str, u64)>,
 }
+
+/// Number of ENOSPC errors the hook has injected in this process. A case that reports "No space left on device"
+/// although none was injected while it ran hit the real file system's limit: infrastructure, not a violation.
+pub static INJECTED_ENOSPC: std::sync::atomic::AtomicU64 = std::sync::atomic::AtomicU64::new(0);
 
 /// The process-global hook implementation.
 pub struct Recorder {
@@ -300,6 +307,10 @@ impl Recorder {
         g.hold_used = false;
         g.hold_nth = nth;
         g.hold_seen = 0;
+    }
+    /// Hold back the next unlink of a file of class `class` for `micros` (one-shot; None = off).
+    pub fn set_hold_unlink(&self, h: Option<(&'static str, u64)>) {
+        self.lock().hold_unlink = h;
     }
     /// Number of recorded MUTATING operations (not fsyncs) that have begun but not ended (since the last `watch` / `take`).
     pub fn in_flight_events(&self) -> usize {
@@ -403,6 +414,9 @@ impl Hook for Recorder {
                 let errno = fp.errno;
                 let kn = kind.name();
                 g.fired.push((idx, file.clone(), kn));
+                if errno == libc::ENOSPC {
+                    INJECTED_ENOSPC.fetch_add(1, std::sync::atomic::Ordering::SeqCst);
+                }
                 return Err(std::io::Error::from_raw_os_error(errno));
             }
         }
@@ -418,6 +432,13 @@ impl Hook for Recorder {
                     None
                 }
             }
+            (Kind::Unlink, _) => match g.hold_unlink {
+                Some((class, us)) if file_class(&file) == class => {
+                    g.hold_unlink = None;
+                    Some(us)
+                }
+                _ => None,
+            },
             _ => None,
         };
         g.events.push(Ev::Begin { id, file, kind });
